@@ -67,6 +67,56 @@ func rulesC20(c *Ctx) {
 		return r.Recv() != nil && namedOf(r.Recv().Type()) == dlT
 	}
 
+	c.Rule("R-C20-8", "a stream's list is found through the two-level table keyed by session id and stream id, and through nothing else: the store keeps no other reference to a list (a remembered 'last stream' survives SessionClosed, or is hit by another session's stream of the same id — every session's standalone stream has the id \"\")", func() {
+		mes := c.P.LookupType(pM, "MemoryEventStore")
+		dlT := c.P.LookupType(pM, "dataList")
+		c.Need(mes != nil && dlT != nil, "MemoryEventStore / dataList")
+		var deep func(t types.Type, d int) bool
+		deep = func(t types.Type, d int) bool {
+			if d > 6 {
+				return false
+			}
+			switch x := t.(type) {
+			case *types.Named:
+				return x.Obj() == dlT.Obj()
+			case *types.Pointer:
+				return deep(x.Elem(), d+1)
+			case *types.Slice:
+				return deep(x.Elem(), d+1)
+			case *types.Array:
+				return deep(x.Elem(), d+1)
+			case *types.Map:
+				return deep(x.Key(), d+1) || deep(x.Elem(), d+1)
+			case *types.Alias:
+				return deep(types.Unalias(x), d)
+			}
+			return false
+		}
+		n := 0
+		for _, fld := range structFields(mes) {
+			if !deep(fld.Type(), 0) {
+				continue
+			}
+			n++
+			m1, ok1 := fld.Type().Underlying().(*types.Map)
+			ok := false
+			if ok1 {
+				if m2, ok2 := m1.Elem().Underlying().(*types.Map); ok2 {
+					_, isStr1 := m1.Key().Underlying().(*types.Basic)
+					_, isStr2 := m2.Key().Underlying().(*types.Basic)
+					ok = isStr1 && isStr2
+				}
+			}
+			c.sites++
+			if ok {
+				c.add(c.rule, "list-reference:"+fld.Name(), c.P.Rel(fld.Pos()), vOK, "the session → stream → list table")
+			} else {
+				c.add(c.rule, "list-reference:"+fld.Name(), c.P.Rel(fld.Pos()), vViolation, "MemoryEventStore."+fld.Name()+" holds a list outside the session → stream table: it is not removed by SessionClosed and is not keyed by the session")
+			}
+		}
+		c.Pin("list-bearing fields of MemoryEventStore", n, 1)
+	})
+
 	c.Rule("R-C20-1", "all store state, including every per-stream list reached through it, is accessed with the store mutex held", func() {
 		n := c.guardedFields("store-state", []*types.Var{storeF, nBytes, maxBytes}, lkStore, func(f *Func, sel *ast.SelectorExpr) string {
 			if f.Name() == "NewMemoryEventStore" {
@@ -308,6 +358,19 @@ func rulesC20(c *Ctx) {
 			}
 		}
 		c.Check(purgedRet != nil, "After:purged-detected", cp, nil, "start < 0 (some requested event was evicted) returns an error wrapping ErrEventsPurged")
+		// ... and nothing is answered before that test: an "empty list, nothing to replay" shortcut in front of it turns
+		// a purge into silence (the consumer resumes with a gap and ids that no longer match the store)
+		for i, r := range cp.Returns() {
+			if len(r.Results) != 2 || !isNilIdent(r.Results[1]) {
+				continue
+			}
+			gs := g.GuardsAt(g.VertexOf(r))
+			c.Check(hasAtom(gs, func(a Atom) bool {
+				x, y, op, ok := binaryCmp(a.E)
+				z, isZ := cp.ConstInt(y)
+				return ok && op == token.LSS && !a.Val && cp.ObjOf(x) == start && isZ && z == 0
+			}), "After:purge-test-before-any-answer#"+itoa(i), cp, r, "every error-free return of After lies behind the start < 0 test (guards: %s)", atomsString(gs))
+		}
 		c.Check(emptyRet != nil, "After:nothing-new", cp, nil, "start >= len(data) returns no data")
 		okClone := false
 		if dataRet != nil {
